@@ -207,7 +207,41 @@ static void body_mt(void) {
 }
 #endif
 
+/* --mode 3: subjects of several full 128 KiB blocks (per-frame counters that steer block-level decisions, e.g. the pre-block splitter's "savings so far"),
+ * after priors that leave large counters behind: an incompressible 1000 KB frame, a compressible one, two frames, an aborted one */
+static void body_big(void) {
+    static const int LV[] = {1, 3, 6, 9, 13}; int lv = LV[vx_choose(5)], prior = vx_choose(5), api = vx_choose(3), kind = vx_choose(2), tex = vx_choose(2);
+    static const char* PN[] = {"none", "incompressible 1000 KB frame", "compressible 600 KB frame", "both", "aborted stream + reset"};
+    vx_label("big level%d after [%s] api%d ctx%d texture%d", lv, PN[prior], api, kind, tex);
+    u8* src = g_srcPage; size_t n = 400000;
+    if (tex) { fill_text(src, n, 77); for (size_t q = 131072; q < n; q += 131072) fill_noise(src + q - 9000, 18000, (uint32_t)q); }      /* statistics change around block edges */
+    else { fill_text(src, 200000, 78); for (size_t i = 200000; i < n; i++) src[i] = (u8)((i * 7 + (i >> 9)) & 0x1f); }
+    static u8* noise; if (!noise) { noise = (u8*)malloc(BIG); fill_noise(noise, BIG, 99); }
+    size_t cap = ZSTD_compressBound(BIG) + 64;
+    ZSTD_CCtx* f = ZSTD_createCCtx(); ZSTD_CCtx_setParameter(f, ZSTD_c_compressionLevel, lv); size_t rn;
+    ZSTD_CCtx* c = kind ? ZSTD_initStaticCCtx(g_static, g_staticSize) : ZSTD_createCCtx();
+    for (int pass = 0; pass < 2; pass++) {
+        ZSTD_CCtx* x = pass ? c : f; u8* dst = pass ? g_dst : g_ref; size_t r;
+        if (pass) {
+            if (prior == 1 || prior == 3) { ZSTD_CCtx_setParameter(x, ZSTD_c_compressionLevel, lv); ZSTD_compress2(x, g_hdst, cap, noise, BIG); }
+            if (prior == 2 || prior == 3) { ZSTD_CCtx_setParameter(x, ZSTD_c_compressionLevel, 3); ZSTD_compress2(x, g_hdst, cap, g_hsrc, 600000); }
+            if (prior == 4) { ZSTD_CCtx_setParameter(x, ZSTD_c_compressionLevel, lv); ZSTD_inBuffer in = { noise, 500000, 0 }; ZSTD_outBuffer out = { g_hdst, cap, 0 }; ZSTD_compressStream2(x, &out, &in, ZSTD_e_continue); }
+            ZSTD_CCtx_reset(x, ZSTD_reset_session_and_parameters);
+        }
+        ZSTD_CCtx_setParameter(x, ZSTD_c_compressionLevel, lv);
+        if (api == 0) r = ZSTD_compress2(x, dst, cap, src, n);
+        else if (api == 1) r = ZSTD_compressCCtx(x, dst, cap, src, n, lv);
+        else { ZSTD_inBuffer in = { src, n, 0 }; ZSTD_outBuffer out = { dst, cap, 0 }; size_t e; do { e = ZSTD_compressStream2(x, &out, &in, ZSTD_e_end); } while (e && !ZSTD_isError(e)); r = ZSTD_isError(e) ? e : out.pos; }
+        if (ZSTD_isError(r)) { vx_fail("big subject fails (%s context): %s", pass ? "used" : "fresh", ZSTD_getErrorName(r)); break; }
+        if (!pass) { rn = r; size_t o = ZSTD_decompress(g_hdst, cap, g_ref, rn); if (ZSTD_isError(o) || o != n || memcmp(g_hdst, src, n)) { vx_fail("fresh-context output does not round trip"); break; } }
+        else if (r != rn || memcmp(g_dst, g_ref, rn)) vx_fail("output of a %zu-byte subject after [%s] differs from the fresh-context output (%zu vs %zu bytes)", n, PN[prior], r, rn);
+    }
+    ZSTD_freeCCtx(f); if (!kind) ZSTD_freeCCtx(c);
+    vx_obs_u64(vx_hash(g_ref, 64)); if (prior) vx_nontrivial(); vx_stat_add("histories_run", 1);
+}
+
 static void body(void) {
+    if ((int)vx_opt_int("--mode", 0) == 3) { body_big(); return; }
     if ((int)vx_opt_int("--mode", 0) == 1) { body_opt(); return; }
 #ifdef VERIF_C07_MT
     if ((int)vx_opt_int("--mode", 0) == 2) { body_mt(); return; }
